@@ -458,9 +458,9 @@ class SemanticErrorChecker:
             True if the attribute access is valid.
         """
         variable = variable_list[0]
-        if variable in task.variables and task.variables[variable] in self.structs:
-            struct = self.structs[task.variables[variable]]
-            predecessor = struct
+        variable_type = task.variables[variable] if variable in task.variables else None
+        if isinstance(variable_type, str) and variable_type in self.structs:
+            predecessor = self.structs[variable_type]
             for i in range(1, len(variable_list)):
                 attribute = variable_list[i]
                 if not (attribute.startswith("[") and attribute.endswith("]")):
@@ -469,20 +469,21 @@ class SemanticErrorChecker:
                         self.error_handler.print_error(error_msg, context=context)
                         return False
                     if i < len(variable_list) - 1:
-                        # check if this attribute is an array (next element is [])
-                        if not (
-                            variable_list[i + 1].startswith("[")
-                            and variable_list[i + 1].endswith("]")
-                        ):
-                            if predecessor.attributes[attribute] not in self.structs:
-                                error_msg = f"Attribute '{attribute}' is not a Struct"
-                                self.error_handler.print_error(error_msg, context=context)
-                                return False
-                            predecessor = self.structs[predecessor.attributes[attribute]]
-                        else:
-                            predecessor = self.structs[
-                                predecessor.attributes[attribute].type_of_elements
-                            ]
+                        attribute_type = predecessor.attributes[attribute]
+                        indexed = variable_list[i + 1].startswith("[") and variable_list[i + 1].endswith("]")
+                        if indexed != isinstance(attribute_type, Array):
+                            error_msg = f"Attribute '{attribute}' is not an Array"
+                            if not indexed:
+                                error_msg = f"Attribute '{attribute}' is an Array and needs an index"
+                            self.error_handler.print_error(error_msg, context=context)
+                            return False
+                        if indexed:
+                            attribute_type = attribute_type.type_of_elements
+                        if attribute_type not in self.structs:
+                            error_msg = f"Attribute '{attribute}' is not a Struct"
+                            self.error_handler.print_error(error_msg, context=context)
+                            return False
+                        predecessor = self.structs[attribute_type]
         else:
             error_msg = f"Unknown variable '{variable}'."
             self.error_handler.print_error(error_msg, context=context)
